@@ -453,6 +453,20 @@ func (r *runner) deliver(f []string) string {
 		err = s.write(dir, func(fr *http2.Framer) error { return fr.WriteRSTStream(u32(c[1]), http2.ErrCodeCancel) })
 	case "malformed": // DATA on stream 0: Framer.ReadFrame answers a connection error (PROTOCOL_ERROR)
 		err = s.write(dir, func(fr *http2.Framer) error { return fr.WriteRawFrame(http2.FrameData, 0, 0, []byte("x")) })
+	case "streamerr": // frames Framer.ReadFrame rejects with an http2.StreamError: the error names one stream only
+		if len(c) != 3 {
+			return "bad-op"
+		}
+		err = s.write(dir, func(fr *http2.Framer) error {
+			switch c[2] {
+			case "wupdate0": // WINDOW_UPDATE with a zero increment on a stream
+				return fr.WriteRawFrame(http2.FrameWindowUpdate, 0, u32(c[1]), []byte{0, 0, 0, 0})
+			case "prio-len": // PRIORITY whose payload is not 5 bytes (the framer calls this one a connection error)
+				return fr.WriteRawFrame(http2.FramePriority, 0, u32(c[1]), []byte{0, 0, 0, 0})
+			default: // "rst-len": RST_STREAM whose payload is not 4 bytes (connection error, FRAME_SIZE_ERROR)
+				return fr.WriteRawFrame(http2.FrameRSTStream, 0, u32(c[1]), []byte{0, 0, 0})
+			}
+		})
 	case "badhpack":
 		if len(c) != 2 {
 			return "bad-op"
